@@ -9,6 +9,7 @@ import RbV.Lemmas.QGramIndex
 import RbV.Lemmas.QGramExactModel
 import RbV.Thm.GenSrcQGrams
 import RbV.Thm.GenSrcQGramIndex
+import RbV.Thm.GenSrcAlphabet
 import RbV.Lemmas.KChainFwd
 import RbV.Lemmas.LcskppFinal
 import RbV.Lemmas.SdpkppUnion
@@ -121,6 +122,40 @@ theorem rev_qgrams_source_eq_model (alpha : List Nat) (rg : Nat → Rs.Res Nat) 
   have h := rev_qgrams_mirror alpha q text hq hqb ht
   rw [qgrams_model_refines alpha q text hq hqb ht] at h
   exact congrArg Rs.Res.ok h
+
+/-- the two translated units composed: with the rank map the *translated* `RankTransform::new` builds for the alphabet of
+`syms` and the *translated* `RankTransform::get` as `rankGet`, the translated `qgrams` + `QGrams::next` yield the reference
+codes of every text over the alphabet.  What stays abstract: `ceilLog2` (the `f32` computation `(len as f32).log2().ceil()`)
+and that `ranks.len()` is the alphabet size. -/
+theorem qgrams_source_with_source_ranks (syms : List Nat) (cl : Nat → Nat) (q : Nat) (hq : 0 < q)
+    (hqb : q * bitsFor (alphaSet syms).length ≤ 64) (hb : bitsFor (alphaSet syms).length < 64)
+    (hcl : cl (alphaSet syms).length = bitsFor (alphaSet syms).length) :
+    ∃ m, Gen.SrcAlphabet.rankNew (alphaSet syms) = Rs.Res.ok m ∧
+      ∀ (text : List Nat), (∀ c ∈ text, c ∈ alphaSet syms) → ∀ fuel, text.length < fuel →
+        (do let st ← Gen.SrcQGrams.qgrams (Gen.SrcAlphabet.rankGet m) cl (alphaSet syms).length q text
+            GenSrcQGrams.collectNext
+              (fun t g => Gen.SrcQGrams.next (Gen.SrcAlphabet.rankGet m) cl (alphaSet syms).length t st.2.2.1 st.2.2.2.1 g)
+              fuel st.1 st.2.2.2.2)
+          = Rs.Res.ok (fwdCodes (alphaSet syms) q text) := by
+  have hA : alphaSet syms = Alpha.mk syms := rfl
+  have hs : (alphaSet syms).Pairwise (· < ·) := by rw [hA]; exact Alpha.mk_sorted syms
+  have hl : (alphaSet syms).length ≤ 256 := by
+    unfold alphaSet
+    exact Nat.le_trans (List.length_filter_le _ _) (by simp)
+  obtain ⟨m, h1, h2⟩ := GenSrcAlphabet.rankNew_eq_model (alphaSet syms) hs hl
+  refine ⟨m, h1, ?_⟩
+  intro text ht fuel hf
+  refine qgrams_source_eq_model (alphaSet syms) _ cl _ q text hq hqb hb hcl ht ?_ fuel hf
+  intro c hc
+  rw [GenSrcAlphabet.rankGet_eq_model (alphaSet syms) m h2 c, if_pos (ht c hc),
+    Alpha.rank_eq_countLt (alphaSet syms) hs c (ht c hc)]
+  rfl
+
+-- "ACGT" over the alphabet ACGTacgt with the ranks the translated `RankTransform::new` builds (documented example)
+example : (do let m ← Gen.SrcAlphabet.rankNew (alphaSet [65, 67, 71, 84, 97, 99, 103, 116])
+              let st ← Gen.SrcQGrams.qgrams (Gen.SrcAlphabet.rankGet m) (fun _ => 3) 8 2 [65, 67, 71, 84]
+              GenSrcQGrams.collectNext (fun t g => Gen.SrcQGrams.next (Gen.SrcAlphabet.rankGet m) (fun _ => 3) 8 t
+                st.2.2.1 st.2.2.2.1 g) 5 st.1 st.2.2.2.2) = Rs.Res.ok [1, 10, 19] := by decide +kernel
 
 /-! ## q-gram index: position lists -/
 
